@@ -265,6 +265,18 @@ Proof.
   - split; (split; [discriminate|split; [vm_compute; discriminate|vm_compute; reflexivity]]).
 Qed.
 
+(* non-vacuity of C12_stream_sps_last_writer_wins: the SPS unit of C12_stream_ex followed by its PPS unit (not accepted as an SPS) *)
+Example C12_stream_lww_ex :
+  let u1 := nal_of_bits 103 (enc_sps C12_ex_sp None ++ trailing_bits 2) in
+  let u2 := nal_of_bits 104 (enc_pps C12_ex_p C12_ex_plists ++ trailing_bits 3) in
+  nal_header_new 103 = Some 103 /\ nal_unit_type_id 103 = 7 /\ sps_from_bits (nal_bitsrc u1) = OK C12_ex_sp /\
+  Forall (fun v : nat * list byte => forall y, sps_from_bits (nal_bitsrc (snd v)) = OK y ->
+                                     seq_parameter_set_id y <> seq_parameter_set_id C12_ex_sp) [(2%nat, u2)].
+Proof.
+  cbv zeta. split; [reflexivity|split; [reflexivity|split; [vm_compute; reflexivity|]]].
+  constructor; [|constructor]. intros y H. cbn [snd] in H. vm_compute in H. discriminate H.
+Qed.
+
 (* non-vacuity of C12_stream_sps_pps_slice: the SPS, PPS and SP slice header of C06_ex (weight table, list modifications,
    adaptive marking), 3 / 7 / 0 trailing zero bits and three bits of slice data meet every hypothesis *)
 Definition C12_sl_sp := mk_sps 100 0 40 0 (mk_chroma_info YUV420 false 0 0 false None) 3 (PocTypeZero 2) 4 false 19 8 (Fields false) true None None.
